@@ -34,7 +34,6 @@ template <typename ExcT>
 void expect_raises_fn(const char* file, uint64_t line, std::function<void()> fn) {
   try {
     fn();
-    expect_generic(false, "expected exception, but none raised", file, line);
   } catch (const ExcT&) {
     return;
   } catch (const std::exception& e) {
@@ -46,6 +45,9 @@ void expect_raises_fn(const char* file, uint64_t line, std::function<void()> fn)
     // std::exception anyway.
     expect_generic(false, "incorrect exception type raised", file, line);
   }
+  // This must be outside the try block: expectation_failed is itself an
+  // exception that ExcT may match (e.g. std::logic_error)
+  expect_generic(false, "expected exception, but none raised", file, line);
 }
 
 template <>
